@@ -342,18 +342,50 @@ def rule_e_inflight(chk, prog):
     f = cands[0]
     chk.analysed(f)
     subs = [c for c in f.calls() if slot_call(c) == ("struct.thread_pool_t", "submit")]
-    copies = [c for c in f.calls("memcpy") if any(fld(x.ops[0]) == "data" or True for x in [c]) and
-              any(x.is_arg and x.idx == 1 for x in backward_slice(c.ops[1]))]
-    links = [i for i in f.insts() if i.op == "store" and fld(i.ops[1]) == "fblk_in_flight"]
+
+    def local_copies(g, pidx):
+        g.build()
+        cps = [c for c in g.calls("memcpy") if any(x.is_arg and x.idx == pidx for x in backward_slice(c.ops[1]))]
+        lks = [i for i in g.insts() if i.op == "store" and fld(i.ops[1]) == "fblk_in_flight"]
+        return cps, lks
+    # the copy may sit in this function or in a static helper that is handed the block: its place in the order of
+    # events is then the call of the helper
+    events = []          # (site in f, memcpy, guard fields)
+    cps, lks = local_copies(f, 1)
+    links = list(lks)
+    for c in cps:
+        gf = set()
+        for cond, outcome, br in f.guards_at(c.bb):
+            gf |= {nm for (_s, nm) in fields_in_slice(cond)}
+        events.append((c, c, gf))
+    for c in f.calls():
+        if not c.callee:
+            continue
+        g = prog.fn(c.callee, f.unit)
+        if g is None or g.decl or g is f or g.unit is not f.unit:
+            continue
+        for k, o in enumerate(c.ops):
+            if strip_casts(o).is_arg and strip_casts(o).idx == 1:
+                hc, hl = local_copies(g, k)
+                if hc and hl:
+                    links += hl
+                    for m in hc:
+                        gf = set()
+                        for cond, outcome, br in f.guards_at(c.bb):
+                            gf |= {nm for (_s, nm) in fields_in_slice(cond)}
+                        for cond, outcome, br in g.guards_at(m.bb):
+                            gf |= {nm for (_s, nm) in fields_in_slice(cond)}
+                        events.append((c, m, gf))
+    copies = [e[1] for e in events]
     if not subs or not copies or not links:
         chk.violation("K11-inflight", "enqueue_block:copy", f, "enqueue_block no longer keeps an in-flight copy of fragment blocks "
                       "(submit=%d copy=%d link=%d)" % (len(subs), len(copies), len(links)))
     else:
         bad = None
-        for s in subs:
-            for c in copies:
-                if f.inst_dominates(s, c) or (f.reaches(s.bb, c.bb) and not f.inst_dominates(c, s)):
-                    bad = c
+        for s_ in subs:
+            for (site, m, _gf) in events:
+                if f.inst_dominates(s_, site) or (f.reaches(s_.bb, site.bb) and not f.inst_dominates(site, s_)):
+                    bad = site
         if bad is None:
             chk.ok("K11-inflight", "enqueue_block:copy-before-submit", copies[0],
                    "the block's bytes are copied before it is handed to a worker (workers compress the block in place)")
@@ -362,9 +394,7 @@ def rule_e_inflight(chk, prog):
                           "the in-flight copy is taken after the block was submitted: a worker may already have compressed it in "
                           "place, so later duplicates are compared against garbage")
         # copy guarded by the comparison configuration
-        g = set()
-        for cond, outcome, br in f.guards_at(copies[0].bb):
-            g |= {nm for (_s, nm) in fields_in_slice(cond)}
+        g = events[0][2]
         if {"file", "uncmp"} <= g:
             chk.ok("K11-inflight", "enqueue_block:config", copies[0], "copy made whenever file and uncompressor are configured")
         else:
